@@ -41,6 +41,7 @@ def run_prop(prop, extra_parts=(), post=None):
         "distinct_nontrivial": stats["clean_cases"] + stats["cases_with_findings"],
         "rule": "one evaluation = one solver query (exists inputs: observed != reference); a case is non-trivial if the real compiler accepted it and at least one query was decided",
         "corpus": stats,
+        "explanation": cfg["what"] + "  Bounds: " + cfg["bounds"],
         "what_is_decided": cfg["what"],
         "bounds": cfg["bounds"],
         "parameters": {k: v for k, v in defaults.items() if k not in ("builds",)},
